@@ -57,6 +57,11 @@ def _ill_calls():
     C["Select(x,y)"] = lambda w: w.m.Select(w.S["x"], w.S["y"])
     C["StrLength(x)"] = lambda w: w.m.StrLength(w.S["x"])
     C["Store(A,a,x)"] = lambda w: w.m.Store(w.S["A"], w.S["a"], w.S["x"])
+    # nodes without arguments (create_node is the public route for node types the manager has no constructor for)
+    import pysmt.operators as _op
+    C["create_node(EQUALS,())"] = lambda w: w.m.create_node(node_type=_op.EQUALS, args=())
+    C["create_node(ITE,())"] = lambda w: w.m.create_node(node_type=_op.ITE, args=())
+    C["create_node(BV_ADD,())"] = lambda w: w.m.create_node(node_type=_op.BV_ADD, args=(), payload=(2,))
     return C
 
 
